@@ -38,7 +38,7 @@ def classify(prob):
     return "diff:" + c.split()[0]
 
 
-ENGINE = dict(compared=0, exact=0)
+ENGINE = dict(compared=0, exact=0, reads=0, reads_skipped=0)
 
 
 def snap_oracle(label, text, r):
@@ -47,6 +47,8 @@ def snap_oracle(label, text, r):
         c, e = vlib.engine_corr(r, r["opts"].get("pagesize", 1024))
         ENGINE["compared"] += c
         ENGINE["exact"] += e
+        ENGINE["reads"] += r.pop("engine_reads", 0)
+        ENGINE["reads_skipped"] += r.pop("engine_reads_skipped", 0)
 
 
 def history_oracle(rep, cases, opts_of, rundir, profiles=("debug",), on_result=snap_oracle, max_report=3,
@@ -85,7 +87,7 @@ def history_oracle(rep, cases, opts_of, rundir, profiles=("debug",), on_result=s
             # every committed file is well-formed with the reference's contents) is a broken correspondence, not a failing
             # input: the property was not seen to fail on it
             allp = (r2.get("diffs", []) + r2.get("checks_bad", [])) if first_problem(r2) else (r.get("diffs", []) + r.get("checks_bad", []))
-            corr_only = bool(allp) and all(q[2] == "identical pages" for q in allp) and not r2.get("error")
+            corr_only = bool(allp) and all(q[2] in ("identical pages", "identical answer") for q in allp) and not r2.get("error")
             rep.violation(describe_problem(label + " [" + prof + "]", p2) +
                           (" -- correspondence model/Engine.v <-> library no longer checks; no call result and no committed file deviates from the reference on this history" if corr_only else ""),
                           dict(kind="history", property=rep.prop, label=label, profile=prof, opts=o,
@@ -240,6 +242,8 @@ def history_property(prop, tier, seed, cases, opts_of, rule, on_result=snap_orac
         rep.cov.update(COUNTERS.pop(prop, {}))
         rep.cov["engine_model_commits_compared_page_exact"] = ENGINE["compared"]
         rep.cov["engine_model_commits_identical"] = ENGINE["exact"]
+        rep.cov["engine_model_reads_inside_write_tx_compared"] = ENGINE["reads"]
+        rep.cov["engine_model_reads_inside_write_tx_skipped"] = ENGINE["reads_skipped"]
         fill_proof_cov(rep, gate, trusted or TRUSTED_COMMON)
         if level == "translation_validation":
             rep.cov["programs"] = rep.cov["evaluations"]
